@@ -144,6 +144,15 @@ def gen_project(rnd, idx):
     if rnd.random() < 0.2:
         files.append(("empty.rs", ""))
         feats.add("empty-file")
+    if idx % 5 == 2:
+        # a source file shared between projects: a symbolic link under the project path to a regular file outside it
+        name, src, info = command()
+        info["file"] = "linked/shared_cmds.rs -> ../../shared_src/cmds.rs"
+        info["depth"] = 1
+        truth[name] = info
+        files.append(("../shared_src/cmds.rs", rg.PRELUDE + src))
+        files.append(("linked/shared_cmds.rs", "\0symlink:../../shared_src/cmds.rs"))
+        feats.add("symlinked-source-file")
     rnd.shuffle(files)
     return files, truth, decoys, feats
 
